@@ -108,6 +108,27 @@ fn add_one(bytes: &mut [u8], le: bool) {
     }
 }
 
+/// a + b as fixed-width integers in the given byte order; None on overflow
+fn add_bytes(a: &[u8], b: &[u8], le: bool) -> Option<Vec<u8>> {
+    if a.len() != b.len() {
+        return None;
+    }
+    let n = a.len();
+    let mut r = vec![0u8; n];
+    let mut carry = 0u16;
+    for k in 0..n {
+        let i = if le { k } else { n - 1 - k };
+        let t = a[i] as u16 + b[i] as u16 + carry;
+        r[i] = t as u8;
+        carry = t >> 8;
+    }
+    if carry != 0 {
+        None
+    } else {
+        Some(r)
+    }
+}
+
 fn order_bytes<C: Suite>() -> Vec<u8> {
     // (0 - 1) is order-1; add one in the encoding's byte order.  Ed448 scalars carry a
     // 57th byte that is always zero: the increment works on the first 56 bytes there.
@@ -259,7 +280,19 @@ fn element_catalogue<C: Suite>(out: &mut Out, ty: &str, class: &str, dec: Dec, v
 }
 
 /// Binary + JSON round trip and header checks of one container value.
-fn container<T>(out: &mut Out, ty: &str, v: &T, ser: &dyn Fn(&T) -> Option<Vec<u8>>, de: &dyn Fn(&[u8]) -> Option<T>, has_header: bool, my_id: &str)
+/// positions of `needle` in `hay`
+fn occurrences(hay: &[u8], needle: &[u8]) -> Vec<usize> {
+    if needle.is_empty() || hay.len() < needle.len() {
+        return vec![];
+    }
+    (0..=hay.len() - needle.len()).filter(|&i| &hay[i..i + needle.len()] == needle).collect()
+}
+
+/// `embedded`: encodings of scalars known to be fields of `v`; `bad_scalars`: same-length strings that
+/// are not canonical scalars (order, order+1, ff..ff).  Each occurrence is replaced by each bad string.
+#[allow(clippy::too_many_arguments)]
+fn container<T>(out: &mut Out, ty: &str, v: &T, ser: &dyn Fn(&T) -> Option<Vec<u8>>, de: &dyn Fn(&[u8]) -> Option<T>, has_header: bool, my_id: &str,
+                embedded: &[Vec<u8>], bad_scalars: &[Vec<u8>])
 where
     T: PartialEq + serde::Serialize + for<'de> serde::Deserialize<'de>,
 {
@@ -284,6 +317,15 @@ where
         out.ev(e);
     };
     emit(out, "valid", &bytes);
+    for e in embedded {
+        for at in occurrences(&bytes, e) {
+            for bad in bad_scalars {
+                let mut b = bytes.clone();
+                b[at..at + e.len()].copy_from_slice(bad);
+                emit(out, "ge_order", &b);
+            }
+        }
+    }
     if has_header && bytes.len() >= 5 {
         for ver in 1..=255u8 {
             let mut b = bytes.clone();
@@ -373,6 +415,45 @@ where
         }
     }
     out.ev(e);
+    // the same text through the decoder's other entry points: a parsed Value, a reader (neither can lend
+    // borrowed strings), and a text whose strings are written with \u escapes
+    if let Some(s) = &js {
+        let mut route = |out: &mut Out, name: &str, r: Option<T>| {
+            out.ev(json!({"op": "dec", "ty": ty, "class": "container", "form": "json", "tag": "valid", "route": name,
+                          "accepted": r.is_some(), "same": r.map(|x| &x == v).unwrap_or(false)}));
+        };
+        let val: Option<Value> = serde_json::from_str(s).ok();
+        route(out, "value", val.and_then(|x| serde_json::from_value::<T>(x).ok()));
+        route(out, "reader", serde_json::from_reader::<_, T>(std::io::Cursor::new(s.as_bytes())).ok());
+        // escape the first character of every string literal: "abc" -> "\u0061bc"
+        let mut esc = String::with_capacity(s.len() + 64);
+        let mut prev_quote_opens = true;
+        let cs: Vec<char> = s.chars().collect();
+        let mut i = 0;
+        while i < cs.len() {
+            let c = cs[i];
+            esc.push(c);
+            if c == '"' {
+                if prev_quote_opens && i + 1 < cs.len() && cs[i + 1] != '"' && cs[i + 1] != '\\' {
+                    esc.push_str(&format!("\\u{:04x}", cs[i + 1] as u32));
+                    i += 1;
+                }
+                prev_quote_opens = !prev_quote_opens;
+            }
+            i += 1;
+        }
+        route(out, "escaped", serde_json::from_str::<T>(&esc).ok());
+        for e in embedded {
+            let h = crate::suite::hex(e);
+            if s.contains(&h) {
+                for bad in bad_scalars {
+                    let t = s.replacen(&h, &crate::suite::hex(bad), 1);
+                    out.ev(json!({"op": "dec", "ty": ty, "class": "container", "form": "json", "tag": "ge_order",
+                                  "accepted": serde_json::from_str::<T>(&t).is_ok()}));
+                }
+            }
+        }
+    }
     if let (Some(s), true) = (&js, has_header) {
         let bad_ver = s.replacen("\"version\":0", "\"version\":1", 1);
         if &bad_ver != s {
@@ -494,29 +575,56 @@ pub fn run<C: Suite>(seed: u64, heavy: bool, f: &mut dyn Write) -> (u64, u64) {
     let d_sig: Dec = &|b| Signature::<C>::deserialize(b).ok().map(|v| v.serialize().ok());
     let sig_bytes = sig.serialize().expect("sig");
     deviations(&mut out, "Signature", "sig", &sig_bytes, d_sig, &mut rng, heavy);
-    if !C::IS_TAPROOT {
-        // an invalid element or scalar half makes the signature undecodable
-        let el = elem_valid.len();
-        let mut b = sig_bytes.clone();
+    // a scalar half that is not a canonical scalar makes the signature undecodable (the element half is
+    // whatever precedes it: a full element, or the x coordinate alone in the Taproot suite)
+    let bad_scalars: Vec<Vec<u8>> = {
         let ord = order_bytes::<C>();
-        b[el..].copy_from_slice(&ord);
-        feed(&mut out, "Signature", "sig", "ge_order", &b, d_sig);
+        let mut o1 = ord.clone();
+        if C::NAME == "ed448" {
+            let (lo, _) = o1.split_at_mut(56);
+            add_one(lo, true);
+        } else {
+            add_one(&mut o1, C::LE);
+        }
+        vec![ord.clone(), o1, vec![0xffu8; ord.len()]]
+    };
+    if sig_bytes.len() > scalar_valid.len() {
+        let el = sig_bytes.len() - scalar_valid.len();
+        for bad in &bad_scalars {
+            let mut b = sig_bytes.clone();
+            b[el..].copy_from_slice(bad);
+            feed(&mut out, "Signature", "sig", "ge_order", &b, d_sig);
+        }
+        // z + order, when that still fits the encoding: the same residue written differently
+        let z = &sig_bytes[el..];
+        if let Some(zn) = add_bytes(z, &bad_scalars[0], C::LE) {
+            let mut b = sig_bytes.clone();
+            b[el..].copy_from_slice(&zn);
+            feed(&mut out, "Signature", "sig", "ge_order", &b, d_sig);
+        }
     }
 
     // ---- containers: binary and JSON round trip, header checks
     let id = C::ID;
-    container(&mut out, "SigningCommitments", &comms[&id1], &|v| v.serialize().ok(), &|b| SigningCommitments::<C>::deserialize(b).ok(), true, id);
-    container(&mut out, "SigningNonces", &nonces[&id1], &|v| v.serialize().ok(), &|b| SigningNonces::<C>::deserialize(b).ok(), true, id);
-    container(&mut out, "SigningPackage", &pkg, &|v| v.serialize().ok(), &|b| SigningPackage::<C>::deserialize(b).ok(), true, id);
-    container(&mut out, "SecretShare", &ss1, &|v| v.serialize().ok(), &|b| SecretShare::<C>::deserialize(b).ok(), true, id);
-    container(&mut out, "KeyPackage", &kp1, &|v| v.serialize().ok(), &|b| KeyPackage::<C>::deserialize(b).ok(), true, id);
-    container(&mut out, "PublicKeyPackage", &pkp, &|v| v.serialize().ok(), &|b| PublicKeyPackage::<C>::deserialize(b).ok(), true, id);
+    let bs = &bad_scalars;
+    let no: Vec<Vec<u8>> = vec![];
+    let non_sc = vec![nonces[&id1].hiding().serialize(), nonces[&id1].binding().serialize()];
+    let share_sc = vec![scalar_valid.clone()];
+    let pok = r1p.proof_of_knowledge().serialize().expect("pok");
+    let pok_sc = vec![pok[pok.len() - scalar_valid.len()..].to_vec()];
+    let r2_sc = vec![r2p.signing_share().serialize()];
+    container(&mut out, "SigningCommitments", &comms[&id1], &|v| v.serialize().ok(), &|b| SigningCommitments::<C>::deserialize(b).ok(), true, id, &no, bs);
+    container(&mut out, "SigningNonces", &nonces[&id1], &|v| v.serialize().ok(), &|b| SigningNonces::<C>::deserialize(b).ok(), true, id, &non_sc, bs);
+    container(&mut out, "SigningPackage", &pkg, &|v| v.serialize().ok(), &|b| SigningPackage::<C>::deserialize(b).ok(), true, id, &no, bs);
+    container(&mut out, "SecretShare", &ss1, &|v| v.serialize().ok(), &|b| SecretShare::<C>::deserialize(b).ok(), true, id, &share_sc, bs);
+    container(&mut out, "KeyPackage", &kp1, &|v| v.serialize().ok(), &|b| KeyPackage::<C>::deserialize(b).ok(), true, id, &share_sc, bs);
+    container(&mut out, "PublicKeyPackage", &pkp, &|v| v.serialize().ok(), &|b| PublicKeyPackage::<C>::deserialize(b).ok(), true, id, &no, bs);
     let legacy = PublicKeyPackage::<C>::new(pkp.verifying_shares().clone(), *pkp.verifying_key(), None);
-    container(&mut out, "PublicKeyPackageLegacy", &legacy, &|v| v.serialize().ok(), &|b| PublicKeyPackage::<C>::deserialize(b).ok(), true, id);
-    container(&mut out, "dkg::round1::Package", &r1p, &|v| v.serialize().ok(), &|b| dkg::round1::Package::<C>::deserialize(b).ok(), true, id);
-    container(&mut out, "dkg::round1::SecretPackage", &r1s, &|v| v.serialize().ok(), &|b| dkg::round1::SecretPackage::<C>::deserialize(b).ok(), false, id);
-    container(&mut out, "dkg::round2::Package", &r2p, &|v| v.serialize().ok(), &|b| dkg::round2::Package::<C>::deserialize(b).ok(), true, id);
-    container(&mut out, "dkg::round2::SecretPackage", &r2s, &|v| v.serialize().ok(), &|b| dkg::round2::SecretPackage::<C>::deserialize(b).ok(), false, id);
+    container(&mut out, "PublicKeyPackageLegacy", &legacy, &|v| v.serialize().ok(), &|b| PublicKeyPackage::<C>::deserialize(b).ok(), true, id, &no, bs);
+    container(&mut out, "dkg::round1::Package", &r1p, &|v| v.serialize().ok(), &|b| dkg::round1::Package::<C>::deserialize(b).ok(), true, id, &pok_sc, bs);
+    container(&mut out, "dkg::round1::SecretPackage", &r1s, &|v| v.serialize().ok(), &|b| dkg::round1::SecretPackage::<C>::deserialize(b).ok(), false, id, &no, bs);
+    container(&mut out, "dkg::round2::Package", &r2p, &|v| v.serialize().ok(), &|b| dkg::round2::Package::<C>::deserialize(b).ok(), true, id, &r2_sc, bs);
+    container(&mut out, "dkg::round2::SecretPackage", &r2s, &|v| v.serialize().ok(), &|b| dkg::round2::SecretPackage::<C>::deserialize(b).ok(), false, id, &no, bs);
     // serde form of a bare signature share and of a signature
     {
         let z = zs[&id1];
